@@ -12,7 +12,14 @@ EXTENDS Naturals, Sequences, TLC, Json, IOUtils
 
 Recs == ndJsonDeserialize(IOEnv.TRACE)
 
+\* string-literal records (StringLiteral.tla): for every context the shape of the parsed tree and the contents of its
+\* string nodes, next to what the grammar dictates
+StrLitVerdict(r) ==
+  IF \E k \in 1..Len(r.obs) : r.obs[k].shape # r.obs[k].wantshape THEN "a string literal next to other tokens, literals or comments: the tree differs from the one the grammar dictates"
+  ELSE IF \E k \in 1..Len(r.obs) : r.obs[k].strs # r.obs[k].wantstrs THEN "a string literal does not denote the characters written (escapes, comment markers inside the literal)"
+  ELSE "ok"
 Verdict(r) ==
+  IF "strlit" \in DOMAIN r THEN StrLitVerdict(r) ELSE
   IF "esc" \in DOMAIN r THEN
        (IF r.decoded = r.want THEN "ok" ELSE "the escape does not decode to its code point")
   ELSE IF \E i \in 1..Len(r.pfull) : r.pfull[i] # r.tree THEN "the fully parenthesised rendering does not parse back to the tree"
